@@ -303,7 +303,7 @@ int main(int argc, char** argv) {
 		else if (key == "watchdog") watchdog = v;
 		else if (key == "threads") threads = (int)v;
 		KN(pIssue); KN(pGuardCancel); KN(pGuardIssue); KN(pConsume); KN(pSucceed); KN(pFail); KN(pHeadStatus); KN(pPropagate); KN(pPlanInCb);
-		KN(kinds); KN(pNoPayload); KN(structDump); KN(logAnswers); KN(planDump); KN(maxBatch); KN(wfEvery); KN(palette); KN(zeroUtil); KN(fineUtil); KN(pendq);
+		KN(kinds); KN(pNoPayload); KN(structDump); KN(logAnswers); KN(planDump); KN(maxBatch); KN(wfEvery); KN(palette); KN(zeroUtil); KN(fineUtil); KN(pInjCancel); KN(pendq);
 		DR(wUpdate); DR(wReact); DR(wQuery); DR(wImmediate); DR(wReset); DR(wExitEnter); DR(wSaveLoad); DR(wPlanEdit); DR(wExtStatus); DR(wRecreate); DR(wOverlong);
 		DR(replica); DR(useLogger); DR(verboseMethods); DR(fillByte); DR(addrOffset); DR(copies);
 		else { fprintf(stderr, "unknown key %s\n", key.c_str()); return 2; }
